@@ -23,13 +23,14 @@ import sys
 sys.path.insert(0, os.path.dirname(os.path.abspath(__file__)))
 import rlex  # noqa: E402
 import desugar  # noqa: E402
+import template  # noqa: E402
 
 VERIF = os.path.dirname(os.path.dirname(os.path.abspath(__file__)))
 REPO_SRC = os.environ.get('VERIF_REPO_SRC', '/repo/embedded-cli/src')
 
 # order matters only for readability; Verus resolves items crate-wide
 MODULES = ['codes', 'buffer', 'utf8', 'utils', 'input', 'token', 'arguments', 'command', 'help',
-           'autocomplete', 'editor', 'history', 'writer', 'service', 'builder', 'cli']
+           'autocomplete', 'tmpl_autocomplete', 'editor', 'history', 'writer', 'service', 'builder', 'cli']
 ALL_FEATURES = ('history', 'autocomplete', 'help')
 
 CLAUSE_KW = ('requires', 'ensures', 'decreases', 'invariant', 'invariant_except_break', 'recommends',
@@ -483,9 +484,16 @@ def sha(s):
 
 def mirror_module(name, features, log, src_dir=None):
     src_dir = src_dir or REPO_SRC
-    path = os.path.join(src_dir, name + '.rs')
-    raw = open(path).read()
-    src = apply_cfg(raw, features, log, name + '.rs', drop_test_only=True)
+    if name in template.TEMPLATES:
+        # code emitted by a derive macro: taken from the quote! literal in the macro crate (tools/template.py)
+        try:
+            raw, src = template.extract(name, src_dir, log)
+        except template.TemplateMismatch as e:
+            raise Undecided(str(e))
+    else:
+        path = os.path.join(src_dir, name + '.rs')
+        raw = open(path).read()
+        src = apply_cfg(raw, features, log, name + '.rs', drop_test_only=True)
     src = desugar.apply(name, src, log)
     apath = os.path.join(VERIF, 'annot', name + '.rs')
     if not os.path.exists(apath):
@@ -530,6 +538,8 @@ def build(features=ALL_FEATURES, modules=None, src_dir=None):
     modules = modules or [m for m in MODULES if os.path.exists(os.path.join(VERIF, 'annot', m + '.rs'))]
     if 'history' not in features:
         modules = [m for m in modules if m != 'history']
+    if 'autocomplete' not in features:
+        modules = [m for m in modules if m != 'tmpl_autocomplete']
     out = []
     linemap = []
 
